@@ -7,9 +7,15 @@
    progress); the counters of the report are those of the final e-graph; and the composition lemma:
    if "apply_rewrites returned false" implies a relation P between the e-graph before and after,
    then a run that stops as Saturated ends in a state P-related to its predecessor.
-   NOT PROVED: the obligation of that lemma for the concrete e-graph, i.e. that an unchanged
-   ProgressMeasure (classes, live classes, slot sum, symmetry sum) means that nothing observable
-   changed.  It is checked per run on the implementation with an independent fingerprint (live
+   The obligation of that lemma for the concrete e-graph MODEL is proved in EGraph/ProgressFacts.v: when
+   apply_rewrites returns false the e-graph is the same graph (classes, union-find, hash-cons), has the same
+   number of nodes, and every equality query, canonical form and slot set of covered invocations is unchanged
+   (C15_false_means_unchanged) - for whole operations started with an empty worklist (necessary: rebuild alone,
+   started with pending work, can drop a node under an equal measure - counterexample in ProgressFacts.v) and
+   under the premise that the substitutions returned by the searchers cover their classes (searchers_ok, not
+   proved; a statement about ematch_impl/final_subst).  Also proved: the measure moves lexicographically in its
+   documented direction along every operation (C15_progress_moves_monotonically).
+   On the implementation the same is checked per run with an independent fingerprint (live
    classes with their slots and canonical e-nodes, equality matrix over all handles, handle slots,
    node count) after every iteration of every explored run, and once more after the run ended.
    The tie of the proved loops to runner.rs / run.rs: per run, the abstract loops instantiated with
@@ -109,3 +115,22 @@ Example C15_bound_attained :
   runner_run nat (fun s => (true, S s)) (fun s => s) (fun s => s) (fun _ _ => None) (fun _ => false) (mkLimits 3 1000) 5 0
   = Some (mkReport 5 IterationLimit 5 5, 5).
 Proof. exact run_bound_tight. Qed.
+
+(* the concrete obligation, on the e-graph model (EGraph/ProgressFacts.v) *)
+From SE Require Import EGraph.Model EGraph.Rewrite EGraph.RewriteFacts EGraph.AddCoversFacts EGraph.ProgressFacts.
+
+Theorem C15_false_means_unchanged : forall sched rs s, inv3 s -> pending s = [] -> searchers_ok sched rs s ->
+  forall s', apply_rewrites_sched sched rs s = Ok (false, s') ->
+  same_graph s s' /\ total_number_of_nodes s' = total_number_of_nodes s /\ obs_same s s'.
+Proof. exact apply_rewrites_false_unchanged. Qed.
+Print Assumptions C15_false_means_unchanged.
+
+Theorem C15_progress_moves_monotonically : forall s s' p p', pext s s' ->
+  progress s = Ok p -> progress s' = Ok p' -> ple p p'.
+Proof. exact progress_monotone. Qed.
+Print Assumptions C15_progress_moves_monotonically.
+
+Theorem C15_union_with_equal_measure_changes_nothing : forall l r s b s',
+  inv3 s -> UnionFindFacts.covers s l -> UnionFindFacts.covers s r -> eg_union l r s = Ok (b, s') -> op_facts s s'.
+Proof. exact eg_union_progress. Qed.
+Print Assumptions C15_union_with_equal_measure_changes_nothing.
